@@ -95,6 +95,14 @@ def _run_unary_sync(
             if app._server._protocol_version_parts is not None and method_name != "__describe__":
                 md = _current_request_metadata.get()
                 app._server._check_protocol_version(md.get(PROTOCOL_VERSION_KEY) if md is not None else None)
+            # Caller-controlled shape is refused *here*, while the request is
+            # still being validated, so that anything raised past this point
+            # is the method's own and gets the ordinary error path.  Shape and
+            # nullness are checked before any value is converted: a request
+            # whose columns do not match the contract is a 400 whatever its
+            # values hold, and must not be masked by a conversion failure.
+            _validate_call_signature(info.name, kwargs, info.param_types, info.param_defaults, info.params_schema)
+            _validate_params(info.name, kwargs, info.param_types)
             try:
                 _deserialize_params(kwargs, info.param_types, app._server.ipc_validation)
             except (KeyError, ValueError) as exc:
@@ -103,11 +111,6 @@ def _run_unary_sync(
                 # malformed parameters without also misclassifying failures
                 # raised earlier by external-location resolution.
                 raise TypeError(str(exc)) from exc
-            # Caller-controlled shape is refused *here*, while the request is
-            # still being validated, so that anything raised past this point
-            # is the method's own and gets the ordinary error path.
-            _validate_call_signature(info.name, kwargs, info.param_types, info.param_defaults, info.params_schema)
-            _validate_params(info.name, kwargs, info.param_types)
         except (pa.ArrowInvalid, OSError, TypeError, StopIteration, RpcError, VersionError) as exc:
             # OSError: pyarrow reports a damaged IPC flatbuffer as ArrowIOError,
             # which is OSError.  The body is in memory, so nothing else here
